@@ -16,7 +16,7 @@ from vlib.runner import Sub, Violation
 @st.composite
 def rt_cases(draw, tier):
     big = tier == 'thorough'
-    nl = draw(gen.netlists(min_inputs=0, max_inputs=6 if big else 5, max_gates=30 if big else 16, max_arity=5,
+    nl = draw(gen.netlists(empty_label=False, min_inputs=0, max_inputs=6 if big else 5, max_gates=30 if big else 16, max_arity=5,
                            styles=('plain', 'digits', 'mixed', 'keyword', 'keyword'), max_outputs=4,
                            const_operands=(0, 0, 2, 1, 3)))
     return {'nl': nl, 'route': draw(gen.routes(nl, allow_bench=False)), 'via_file': draw(st.integers(0, 3)) == 0,
@@ -107,7 +107,7 @@ def _case_variant(draw, word):
 @st.composite
 def layout_cases(draw, tier):
     big = tier == 'thorough'
-    nl = draw(gen.netlists(min_inputs=0, max_inputs=5, max_gates=24 if big else 14, max_arity=5,
+    nl = draw(gen.netlists(empty_label=False, min_inputs=0, max_inputs=5, max_gates=24 if big else 14, max_arity=5,
                            styles=('plain', 'digits', 'mixed', 'keyword'), max_outputs=4,
                            const_operands=(0, 0, 2, 1, 3)))
     sp = lambda: ' ' * draw(st.sampled_from([0, 0, 1, 1, 2]))
